@@ -1,2 +1,69 @@
 (* further operations of the line protocol (added as the model grows) *)
-let handle (_line : string) : string = "unknown-op"
+open Model
+type string = Stdlib.String.t
+module String = Stdlib.String
+
+let rec pos_of_int (i : int) : positive =
+  if i = 1 then XH else if i land 1 = 0 then XO (pos_of_int (i lsr 1)) else XI (pos_of_int (i lsr 1))
+let n_of_int (i : int) : n = if i = 0 then N0 else Npos (pos_of_int i)
+let rec int_of_pos (p : positive) : int =
+  match p with XH -> 1 | XO q -> 2 * int_of_pos q | XI q -> 2 * int_of_pos q + 1
+let int_of_n (x : n) : int = match x with N0 -> 0 | Npos p -> int_of_pos p
+let int_of_z (x : z) : int = match x with Z0 -> 0 | Zpos p -> int_of_pos p | Zneg p -> - (int_of_pos p)
+let rec nat_of_int (i : int) : nat = if i <= 0 then O else S (nat_of_int (i - 1))
+let rec int_of_nat (x : nat) : int = match x with O -> 0 | S y -> 1 + int_of_nat y
+
+let hexval c =
+  match c with
+  | '0' .. '9' -> Char.code c - 48
+  | 'a' .. 'f' -> Char.code c - 87
+  | 'A' .. 'F' -> Char.code c - 55
+  | _ -> failwith "bad hex"
+
+let bytes_of_hex (s : string) : n list =
+  if s = "~" || s = "" then []
+  else begin
+    let len = String.length s / 2 in
+    let rec go i acc = if i < 0 then acc else go (i - 1) (n_of_int (hexval s.[2 * i] * 16 + hexval s.[2 * i + 1]) :: acc) in
+    go (len - 1) []
+  end
+
+let hex_of_bytes (b : n list) : string =
+  match b with
+  | [] -> "~"
+  | _ ->
+    let buf = Buffer.create 64 in
+    List.iter (fun x -> Buffer.add_string buf (Printf.sprintf "%02x" (int_of_n x))) b;
+    Buffer.contents buf
+
+let ascii_of_bytes (b : n list) : string =
+  let buf = Buffer.create 16 in
+  List.iter (fun x -> Buffer.add_char buf (Char.chr (int_of_n x))) b;
+  Buffer.contents buf
+
+let show_tok (t : token) : string =
+  Printf.sprintf "%s:%s:%d:%d" (ascii_of_bytes (toktype_name t.t_typ)) (hex_of_bytes t.t_lit) (int_of_z t.t_line) (int_of_z t.t_col)
+
+(* tokens <hex> : the lexer alone, up to the first EOF or Error token *)
+let tokens_of (input : n list) (max : int) : string =
+  let fuel = lex_fuel input in
+  let rec go lx acc k =
+    if k >= max then String.concat ";" (List.rev acc)
+    else
+      match next_token fuel lx with
+      | PTok (t, lx') ->
+        let acc' = show_tok t :: acc in
+        (match t.t_typ with
+         | TEOF | TError -> String.concat ";" (List.rev acc')
+         | _ -> go lx' acc' (k + 1))
+      | PHang -> String.concat ";" (List.rev ("hang" :: acc))
+      | PPanic -> String.concat ";" (List.rev ("panic" :: acc))
+      | PDeadlock -> String.concat ";" (List.rev ("deadlock" :: acc))
+  in
+  go (new_lexer input) [] 0
+
+let handle (line : string) : string =
+  match String.split_on_char ' ' line with
+  | [ "tokens"; h ] -> tokens_of (bytes_of_hex h) 100000
+  | [ "quote"; h ] -> "ok " ^ hex_of_bytes (go_quote (bytes_of_hex h))
+  | _ -> "unknown-op"
